@@ -39,7 +39,7 @@ pub fn generate(tier: &str, seed: u64, path: &str) -> Value {
             n += 2;
         }
     }
-    let rnd = if tier == "thorough" { 50000 } else { 8000 };
+    let rnd = if tier == "thorough" { 200000 } else { 8000 };
     for _ in 0..rnd {
         let a = rng.u32();
         let d = match rng.below(4) {
